@@ -3,7 +3,7 @@
 // the public mutators with a random state bijection, shuffled rule insertion order and a
 // fresh alphabet registered in another order. Relations between executions are checked:
 //   * every inclusion verdict (8 selections, both directions) equals the twin's, and all
-//     selections agree;   * emptiness equal;   * downward simulation maps to its image;
+//     selections agree;   * emptiness equal;   * downward and upward simulation map to their images;
 //   * |states|, |rules| of Reduce / RemoveUselessStates / RemoveUnreachableStates equal;
 //   * A ⊆ A, A ⊆ A∪B, A∩B ⊆ A, A∩B ⊆ B, transitivity on A ⊆ A∪B ⊆ A∪B∪C and on observed-true
 //     pairs, A ≡ Reduce(A) ≡ trim(A) ≡ reindex(A) ≡ reload(dump(A)).
@@ -183,6 +183,14 @@ static void caseC19(uint64_t idx, vh::Rng& g)
 		auto simHash = [&](Built& x) { SimParam sp; sp.SetRelation(SimParam::e_sim_relation::TA_DOWNWARD); sp.SetNumStates(n); auto rel = x.a.ComputeSimulation(sp); uint64_t h = 1469598103934665603ull; size_t cnt = 0;
 			for (auto& p : sa.states) for (auto& q : sa.states) { bool v = rel.get(x.sm.at(p), x.sm.at(q)); cnt += v; h = (h ^ (v ? 0x9e : 0x31)) * 1099511628211ull; } return vh::str(h) + "/" + vh::str(cnt); };
 		if (eval("down-sim A", [&] { return simHash(DA); }, o1) && eval("down-sim twin", [&] { return simHash(DTA); }, o2)) { ++decided; if (o1 != o2) R->violation("C19/twin/down-simulation-image", id + " " + o1 + " vs " + o2); }
+		// upward simulation (of the trimmed automaton, as the library's own callers compute it), over the states that survive trimming
+		auto upHash = [&](Built& x) {
+			// contract of the upward simulation: no useless states, states numbered densely, their exact number passed
+			Aut t = x.a.RemoveUselessStates(); AutBase::StateToStateMap m; size_t c = 0; AutBase::StateToStateTranslWeak tr(m, [&c](const size_t&) { return c++; }); Aut d = t.ReindexStates(tr);
+			if (c == 0) return std::string("empty-after-trimming");
+			SimParam sp; sp.SetRelation(SimParam::e_sim_relation::TA_UPWARD); sp.SetNumStates(c); auto rel = d.ComputeSimulation(sp); uint64_t h = 1469598103934665603ull; size_t cnt = 0;
+			for (auto& p : sa.states) { auto ip = m.find(x.sm.at(p)); if (ip == m.end()) continue; for (auto& q : sa.states) { auto iq = m.find(x.sm.at(q)); if (iq == m.end()) continue; bool v = rel.get(ip->second, iq->second); cnt += v; h = (h ^ (v ? 0x9e : 0x31)) * 1099511628211ull; } } return vh::str(h) + "/" + vh::str(cnt) + "/" + vh::str(c); };
+		if (eval("up-sim A", [&] { return upHash(DA); }, o1) && eval("up-sim twin", [&] { return upHash(DTA); }, o2)) { ++decided; R->count("twin-up-simulations"); if (o1 != o2) R->violation("C19/twin/up-simulation-image", id + " " + o1 + " vs " + o2); }
 	}
 	// ---- inclusion: all selections, both directions, subject pair and twin pair
 	int verdict[2] = {-1, -1};
